@@ -27,7 +27,7 @@ def verus_cmd(path, extra=()):
             '--multiple-errors', '8', '--no-report-long-running'] + list(extra)
 
 
-def run_unit(unit_name, canary=None, extra=(), suffix='', timeout=900):
+def run_unit(unit_name, canary=None, extra=(), suffix='', timeout=int(os.environ.get('VERIF_VERUS_TIMEOUT', '600'))):
     """Build + verify one unit.  Returns dict with status in proved|failed|undecided."""
     t0 = time.time()
     res = {'unit': unit_name, 'canary': canary, 'status': 'undecided', 'failures': [], 'reason': '',
@@ -101,9 +101,9 @@ def run_unit(unit_name, canary=None, extra=(), suffix='', timeout=900):
             continue
         if RLIMIT.search(msg):
             rlimit_hit = True
-            res['failures'].append({'message': msg, 'kind': 'rlimit', 'spans': _spans(d, lo, text_lines)})
+            res['failures'].append({'message': msg, 'kind': 'rlimit', 'spans': _spans(d, lo, text_lines, os.path.basename(path))})
             continue
-        spans = _spans(d, lo, text_lines)
+        spans = _spans(d, lo, text_lines, os.path.basename(path))
         res['failures'].append({'message': msg, 'kind': 'verification' if VERIF_FAIL.search(msg) else 'other',
                                 'spans': spans})
     real = [f for f in res['failures'] if f['kind'] == 'verification']
@@ -123,10 +123,14 @@ def run_unit(unit_name, canary=None, extra=(), suffix='', timeout=900):
     return res
 
 
-def _spans(d, lo, text_lines):
+def _spans(d, lo, text_lines, unit_file=''):
     out = []
     for s in d.get('spans', []):
         ln = s.get('line_start', 0)
+        if not (s.get('file_name') or '').startswith(unit_file):
+            out.append({'line': ln, 'origin': 'external:%s' % s.get('file_name'), 'text': (s.get('text') or [{}])[0].get('text', '')[:240] if s.get('text') else '',
+                        'label': s.get('label'), 'tags': []})
+            continue
         origin = lo[ln - 1] if 0 < ln <= len(lo) else ''
         txt = text_lines[ln - 1].strip() if 0 < ln <= len(text_lines) else ''
         tags = TAG.findall(txt)   # convention: the tag sits on the first line of its clause
